@@ -152,6 +152,34 @@ fn c14_systematic() -> Vec<Layout> {
             v.push(lay(b, vec![fld("all", 0, b, uty(b), Access::W), ro_arr.clone()]));
             ro_arr.access = Access::R;
             v.push(lay(b, vec![ro_arr, fld("lo", 0, b / 2, uty(b / 2), Access::RW), fld("hi", b / 2, b - b / 2, uty(b - b / 2), Access::RW)]));
+            // list arrays whose *listed order* is not ascending and whose elements collide / do not collide
+            for (rs, st, k, ty_w) in [
+                (vec![(6u32, 6u32), (0, 0)], 2u32, 4u32, 2u32), // {6,0},{8,2},{10,4},{12,6}: elements 0 and 3 share bit 6
+                (vec![(6, 6), (0, 0)], 2, 3, 2),               // no collision yet
+                (vec![(4, 5), (0, 1)], 4, 2, 4),               // {4,5,0,1},{8,9,4,5}: collide
+                (vec![(4, 5), (0, 1)], 8, 2, 4),               // no collision
+                (vec![(0, 0), (4, 4)], 2, 3, 2),               // {0,4},{2,6},{4,8}: elements 0 and 2 share bit 4
+                (vec![(0, 0), (6, 6)], 3, 3, 2),               // {0,6},{3,9},{6,12}: elements 0 and 2 share bit 6
+            ] {
+                let top = rs.iter().map(|r| r.1).max().unwrap() + (k - 1) * st;
+                if top >= b {
+                    continue;
+                }
+                let f = Field {
+                    name: "x".into(),
+                    kw_bit: false,
+                    list: true,
+                    ranges: rs.iter().map(|(lo, hi)| Rng { lo: *lo, hi: *hi, short: lo == hi }).collect(),
+                    array: Some(ArrayDecl { count: k, stride: Some(st), colon: false }),
+                    ty: uty(ty_w),
+                    access: Access::RW,
+                    arg_order: 0,
+                    opt_path: 0,
+                    huge: None,
+                    zero_pad: false,
+                };
+                v.push(lay(b, vec![f]));
+            }
             // overlapping ranges that are not neighbours in the list; elements colliding around a middle element
             let na = Field { name: "x".into(), kw_bit: false, list: true, ranges: vec![Rng::new(0, 3), Rng::new(8, 11), Rng::new(2, 5)], array: None, ty: uty(12), access: Access::RW, arg_order: 0, opt_path: 0, huge: None, zero_pad: false };
             v.push(lay(b, vec![na]));
@@ -165,6 +193,13 @@ fn c14_systematic() -> Vec<Layout> {
             let rep = Field { name: "x".into(), kw_bit: false, list: true, ranges: vec![Rng::bit(3), Rng::new(0, 1), Rng::bit(3)], array: None, ty: uty(4), access: Access::RW, arg_order: 0, opt_path: 0, huge: None, zero_pad: false };
             v.push(lay(b, vec![rep]));
         }
+    }
+    // no writable field at all: with a default the (empty) builder chain must still be offered, without
+    // one it must not
+    for b in [8u32, 32, 128, 7, 24, 100] {
+        v.push(lay(b, vec![]));
+        v.push(lay(b, vec![fld("ro", 0, b, uty(b), Access::R)]));
+        v.push(lay(b, vec![fld("st", 0, 1, FieldTy::Bool, Access::R), fld("nn", 1, (b - 1).min(8), uty((b - 1).min(8)), Access::None)]));
     }
     // every systematic layout with and without a default
     let mut out = Vec::new();
@@ -724,6 +759,15 @@ pub fn c10_corpus(tier: Tier, seed: u64) -> Vec<EnumDecl> {
                     out.push(mk_enum(n, &d, Exh::Conditional, Some(0), 0));
                     out.push(mk_enum(n, &d, Exh::False, Some(0), 0));
                 }
+            }
+        }
+    }
+    // discriminants at the very top of u64 (the macro's own arithmetic must not wrap)
+    for n in [33u32, 40, 48, 63] {
+        for md in [u64::MAX as u128, (u64::MAX - 1) as u128, 1u128 << 63] {
+            for ex in [Exh::False, Exh::Omitted, Exh::Conditional] {
+                out.push(mk_enum(n, &[0, md], ex, None, 0));
+                out.push(mk_enum(n, &[md, 1, 2], ex, None, 0));
             }
         }
     }
